@@ -1,9 +1,9 @@
 (* Props_C06.v -- property C06 (thread pool).  ONLY statements closed by `exact`.
    Proved for EVERY schedule (list of thread choices, spurious wake-ups included), every pool flavour,
    every number of submitters / workers / tasks.  NOT proved here (decided per run by the deterministic
-   scheduler harness and its monitors only): wait-all / wait-current completeness, deadlock freedom, bounded
-   parallelism -- see DESIGN.md. *)
-From LM Require Import Base Thpool ThpoolProofs ThpoolQuiesce.
+   scheduler harness and its monitors only): that free eventually returns (deadlock freedom / liveness under a fair
+   schedule), wait-current -- see DESIGN.md. *)
+From LM Require Import Base Thpool ThpoolProofs ThpoolQuiesce ThpoolWait.
 
 (* tasks are conserved by every transition: a task is always in exactly one place *)
 Theorem C06_tasks_conserved : forall p ch x, cnt x (everywhere (step p ch)) = cnt x (everywhere p).
@@ -40,6 +40,26 @@ Theorem C06_lock_mutual_exclusion : forall lazy det mx md subs sched,
     holds th1 = true -> holds th2 = true -> t1 = t2.
 Proof. exact lock_mutual_exclusion. Qed.
 Print Assumptions C06_lock_mutual_exclusion.
+
+(* bounded parallelism: never more worker threads, hence never more tasks running at once, than max_threads *)
+Theorem C06_bounded_parallelism : forall lazy det mx md subs sched, 1 <= mx ->
+  let p := run_sched (init lazy det mx md subs) sched in
+  count_th is_task (p_threads p) <= mx /\ count_th is_worker (p_threads p) <= mx.
+Proof. exact bounded_parallelism. Qed.
+Print Assumptions C06_bounded_parallelism.
+
+(* wait-all completeness (as a safety statement): IF m_thpool_free(pool, wait_all = true) has returned, every accepted task has
+   run -- the multiset of executed tasks equals the multiset of submitted ones -- and nothing was discarded *)
+Theorem C06_wait_all_complete : forall lazy det mx subs sched, 1 <= mx ->
+  let p := run_sched (init lazy det mx Wall subs) sched in
+  p_destroyed p = true ->
+  p_discarded p = [] /\ forall k, cnt k (map fst (p_started p)) = cnt k (concat subs).
+Proof. exact wait_all_complete. Qed.
+Print Assumptions C06_wait_all_complete.
+
+Theorem C06_second_invariant_inductive : forall p ch, QInv p -> WInv p -> WInv (step p ch).
+Proof. exact step_winv. Qed.
+Print Assumptions C06_second_invariant_inductive.
 
 (* the invariant is inductive for ANY pool state satisfying it, not only for runs from init *)
 Theorem C06_invariant_inductive : forall p ch, QInv p -> QInv (step p ch).
